@@ -13,6 +13,7 @@ use sozu_command::{logging::ansi_palette, ready::Ready};
 use crate::metrics::names;
 use crate::{
     L7ListenerHandler, ListenerHandler, Readiness,
+    protocol::kawa_h1::parser::compare_no_case,
     protocol::mux::{
         BackendStatus, Context, DebugEvent, Endpoint, GlobalStreamId, MuxResult, Position,
         StreamState, forcefully_terminate_answer,
@@ -24,6 +25,48 @@ use crate::{
     socket::{SocketHandler, SocketResult, stats::socket_rtt},
     timer::TimeoutContainer,
 };
+
+/// RFC 9110 §6.5: trailers must not carry routing or attribution fields.
+///
+/// kawa's H1 parser appends the trailer section of a chunked request as
+/// plain header blocks after `on_request_headers` has run, so the elisions
+/// and appends that callback performs on the head do not see them. Mirror
+/// `pkawa::handle_trailer` (the H2 trailer path): drop the client
+/// attribution fields Sōzu manages, plus a copy of the correlation header.
+/// Trailers are the header blocks after the `end_body` flag; that flag may
+/// already have been forwarded, so walk back from the tail until the first
+/// block that is neither a header nor the closing flags.
+fn elide_spoofable_trailers(kawa: &mut super::GenericHttpStream, correlation_header: &str) {
+    if kawa.body_size != kawa::BodySize::Chunked
+        || !matches!(
+            kawa.parsing_phase,
+            kawa::ParsingPhase::Trailers | kawa::ParsingPhase::Terminated
+        )
+    {
+        return;
+    }
+    let buf = kawa.storage.buffer();
+    for block in kawa.blocks.iter_mut().rev() {
+        match block {
+            kawa::Block::Flags(kawa::Flags {
+                end_stream: true, ..
+            }) => {}
+            kawa::Block::Header(header) if header.is_elided() => {}
+            kawa::Block::Header(header) => {
+                let key = header.key.data(buf);
+                if compare_no_case(key, b"x-real-ip")
+                    || compare_no_case(key, b"x-forwarded-for")
+                    || compare_no_case(key, b"forwarded")
+                    || compare_no_case(key, b"x-request-id")
+                    || compare_no_case(key, correlation_header.as_bytes())
+                {
+                    header.elide();
+                }
+            }
+            _ => break,
+        }
+    }
+}
 
 /// Prefix applied to every [`ConnectionH1`] log line. Matches the RUSTLS
 /// log-context convention (`MUX-H1\tSession(...)\t >>>`). When the logger is
@@ -333,6 +376,9 @@ impl<Front: SocketHandler> ConnectionH1<Front> {
                 }
             }
             return MuxResult::Continue;
+        }
+        if self.position.is_server() {
+            elide_spoofable_trailers(kawa, &parts.context.sozu_id_header);
         }
         // Capture borrow-sensitive values after parsing but before the 1xx block
         // accesses stream.state (which ends the split borrow from `parts`).
